@@ -87,7 +87,7 @@ func (ctx *EvalCtx) specialForm(name string, x *ast.CallExpr) (CV, bool) {
 
 func (ex *Exec) bytesToStr(st *State, b *Term) *Term {
 	f := ex.f
-	e := ex.comp(st, "E.Int", ArraySort(SInt, ArraySort(SInt, SInt)))
+	e := ex.comp(st, "E.uint8", ArraySort(SInt, ArraySort(SInt, SInt)))
 	arr := f.Select(e, f.Acc("Slice", "ref", b))
 	return f.App("str.frombytes_", SStr, arr, f.Acc("Slice", "off", b), f.Acc("Slice", "len", b))
 }
@@ -262,3 +262,52 @@ func specMethodExtra(ex *Exec, recv CV, name string) SpecFn {
 	}
 	return nil
 }
+
+// ---- heap component names by Go type (finer than by SMT sort, so that e.g. a slice of pointers and a byte
+// slice live in different element heaps and a loop writing one does not havoc the other)
+
+func (tm *TypeMap) CompName(t types.Type) string {
+	t = types.Unalias(t)
+	if s, ok := tm.special[typeFullName(t)]; ok {
+		if s.IsArray() {
+			return "Coins"
+		}
+		return sanitize(string(s))
+	}
+	switch u := t.Underlying().(type) {
+	case *types.Basic:
+		if u.Info()&types.IsString != 0 {
+			return "string"
+		}
+		if int(u.Kind()) < len(types.Typ) && types.Typ[u.Kind()] != nil {
+			return types.Typ[u.Kind()].Name() // byte -> uint8, rune -> int32
+		}
+		return u.Name()
+	case *types.Pointer:
+		return "ptr." + tm.CompName(u.Elem())
+	case *types.Slice:
+		return "slice." + tm.CompName(u.Elem())
+	case *types.Array:
+		return "arr." + tm.CompName(u.Elem())
+	case *types.Map:
+		return "map"
+	case *types.Interface:
+		return "iface"
+	case *types.Signature:
+		return "func"
+	case *types.Chan:
+		return "chan"
+	case *types.Struct:
+		if dt, _, ok := tm.StructOf(t); ok {
+			return dt
+		}
+		return "opaque." + sanitize(typeFullName(t))
+	}
+	return sanitize(string(tm.SortOf(t)))
+}
+
+// eComp: element heap of slices / arrays whose element type is t; pComp: cells holding a t behind a plain pointer
+func (ex *Exec) eComp(t types.Type) string { return "E." + ex.tm.CompName(t) }
+func (ex *Exec) pComp(t types.Type) string { return "P." + ex.tm.CompName(t) }
+
+var byteType = types.Typ[types.Uint8]
